@@ -29,7 +29,7 @@ func c08Scenarios(tier string) []*Scenario {
 	}
 	for _, tr := range []string{"inproc", "http"} {
 		// unary: the handler returns (nil, nil), one response, or an error
-		for _, h := range [][]string{{"dec", "ret:nil"}, {"dec", "ret:ok"}, {"dec", "ret:st:5"}, {"dec", "h:a", "t:b", "ret:nil"}, {"dec", "h:a", "t:b", "ret:ok"}} {
+		for _, h := range [][]string{{"dec", "ret:nil"}, {"dec", "ret:tnil"}, {"dec", "ret:ok"}, {"dec", "ret:st:5"}, {"dec", "h:a", "t:b", "ret:nil"}, {"dec", "h:a", "t:b", "ret:tnil"}, {"dec", "h:a", "t:b", "ret:ok"}} {
 			add(tr, "", RPC{Kind: "unary", Client: []string{"I"}, Handler: h})
 		}
 		// client-streaming: r responses, final status nil / non-nil, with and without metadata
@@ -109,7 +109,7 @@ func c08Scenarios(tier string) []*Scenario {
 	// unary over HTTP with an application-supplied error renderer that leaves the HTTP status at 200: a handler
 	// without a response, or with a failure, is still reported as an error
 	for _, rd := range []string{"renderer:noop", "renderer:hdr"} {
-		for _, h := range [][]string{{"dec", "ret:nil"}, {"dec", "ret:ok"}, {"dec", "ret:st:5"}, {"dec", "h:a", "t:b", "ret:nil"}, {"dec", "ret:okerr"}} {
+		for _, h := range [][]string{{"dec", "ret:nil"}, {"dec", "ret:tnil"}, {"dec", "ret:ok"}, {"dec", "ret:st:5"}, {"dec", "h:a", "t:b", "ret:nil"}, {"dec", "ret:okerr"}} {
 			add("http", "", RPC{Kind: "unary", Client: []string{"I"}, Handler: h})
 			sc := out[len(out)-1]
 			sc.Opts = rd
@@ -120,6 +120,7 @@ func c08Scenarios(tier string) []*Scenario {
 	for _, tr := range []string{"inproc", "http"} {
 		for _, rpc := range []RPC{
 			{Kind: "unary", Client: []string{"I"}, Handler: []string{"dec", "ret:nil"}},
+			{Kind: "unary", Client: []string{"I"}, Handler: []string{"dec", "ret:tnil"}},
 			{Kind: "unary", Client: []string{"I"}, Handler: []string{"dec", "h:a", "t:b", "ret:nil"}},
 			{Kind: "unary", Client: []string{"I"}, Handler: []string{"dec", "ret:ok"}},
 			{Kind: "cs", Client: []string{"S0", "C", "R*", "R"}, Handler: []string{"r*", "ret:ok"}},
